@@ -1754,10 +1754,20 @@ func scenarioStrippedSignature(c *core.Ctx) {
 		if skip {
 			opts = append(opts, parquet.SkipPageIndex(true), parquet.SkipBloomFilters(true))
 		}
-		o := p.touchAll(mod, &keyset{p: p}, rows, opts...)
+		// the footer is authenticated by its signature alone: the read affected
+		// by its removal is OpenFile, whatever is read afterwards
+		o := guard(20*time.Second, func(o *outcome) {
+			all := append([]parquet.FileOption{parquet.WithDecryption(&keyset{p: p})}, opts...)
+			f, err := parquet.OpenFile(bytes.NewReader(mod), int64(len(mod)), all...)
+			if err != nil {
+				o.Err = err
+				return
+			}
+			o.Blooms = int(f.NumRows())
+		})
 		c.Case("scenario/stripped-signature", fmt.Sprint(skip), true)
-		if o.Panic != "" || o.Hung || (o.Err == nil) || strings.Contains(o.Err.Error(), "footer says") {
-			c.Violation("plaintext-footer-signature-stripped", fmt.Sprintf("plaintext footer with its 28-byte signature removed (skip page index: %v) is accepted by a reader holding the keys: err=%v panic=%q rows=%d", skip, o.Err, o.Panic, len(o.Rows)),
+		if o.Panic != "" || o.Hung || o.Err == nil {
+			c.Violation("plaintext-footer-signature-stripped", fmt.Sprintf("plaintext footer with its 28-byte signature removed (skip page index: %v): OpenFile with the keys returns err=%v panic=%q and a file of %d rows: the unauthenticated footer is accepted", skip, o.Err, o.Panic, o.Blooms),
 				map[string]any{"kind": "stripped-signature", "skip_index": skip})
 		}
 	}
